@@ -1,6 +1,7 @@
 package scen
 
 import (
+	"fmt"
 	"os"
 	"path/filepath"
 	"strings"
@@ -8,6 +9,7 @@ import (
 	"github.com/go-kid/ioc/util/vsync"
 
 	"verif/internal/core"
+	"verif/internal/envx"
 )
 
 // SchedStats of one schedule exploration.
@@ -90,8 +92,8 @@ func ExploreSched(bound int, maxExecs int64, stop func() bool, body func(), afte
 	}()
 	vsync.End()
 	warmRaced := RaceLogSize() != warmBefore
-	type item struct{ pre []int }
-	stack := []item{{nil}}
+	type item struct{ pre, preN []int } // scripted choices and the number of alternatives each had
+	stack := []item{{nil, nil}}
 	for len(stack) > 0 {
 		if (maxExecs > 0 && st.Execs >= maxExecs) || (stop != nil && stop()) {
 			st.Truncated = true
@@ -134,7 +136,17 @@ func ExploreSched(bound int, maxExecs int64, stop func() bool, body func(), afte
 			st.Deadlocks++
 		}
 		if len(rec) < len(it.pre) {
-			panic(vsync.ReplayDivergence{Msg: "execution ended before its scripted prefix"})
+			vsync.Diverged = "execution ended before its scripted prefix"
+		}
+		for k := 0; k < len(it.preN) && k < len(rec) && vsync.Diverged == ""; k++ {
+			if rec[k].N != it.preN[k] {
+				vsync.Diverged = fmt.Sprintf("choice point %d had %d alternatives when recorded, %d when replayed", k, it.preN[k], rec[k].N)
+			}
+		}
+		if vsync.Diverged != "" {
+			// executions of one program are not independent (state surviving between them) or the
+			// harness lost a source of nondeterminism: nothing further can be trusted
+			panic(envx.Divergence{Msg: vsync.Diverged})
 		}
 		after(e)
 		cost := 0
@@ -146,12 +158,12 @@ func ExploreSched(bound int, maxExecs int64, stop func() bool, body func(), afte
 				}
 				if c <= bound {
 					for alt := p.N - 1; alt >= 1; alt-- {
-						np := make([]int, i+1)
-						for k := 0; k < i; k++ {
-							np[k] = rec[k].Chosen
+						np, nn := make([]int, i+1), make([]int, i+1)
+						for k := 0; k <= i; k++ {
+							np[k], nn[k] = rec[k].Chosen, rec[k].N
 						}
 						np[i] = alt
-						stack = append(stack, item{np})
+						stack = append(stack, item{np, nn})
 					}
 				}
 			}
@@ -184,7 +196,11 @@ func ReplaySched(script []int, body func()) *SchedExec {
 		body()
 	}()
 	vsync.End()
-	e := &SchedExec{Raced: RaceLogSize() != before, Deadlock: dead || vsync.Deadlock, Unfinished: vsync.Unfinished}
+	if vsync.Diverged != "" {
+		vsync.Script = nil
+		panic(envx.Divergence{Msg: vsync.Diverged})
+	}
+	e := &SchedExec{Raced: RaceLogSize() != before, Deadlock: dead || vsync.Deadlock, Unfinished: vsync.Unfinished, ChildPanics: append([]string{}, vsync.ChildPanics...)}
 	for _, p := range vsync.Rec {
 		e.Script = append(e.Script, p.Chosen)
 	}
